@@ -158,7 +158,11 @@ func SelfCheck(dir string) (report map[string]int, failures []string, err error)
 			raw, _ := read(bref.file)
 			sb, err := DecodeBlock(sp, bref.fork, raw)
 			if err != nil {
-				fail(ln, "block does not decode: %v", err)
+				if fs[5] == "ERR" && strings.Contains(line, "decode=fail") {
+					report["trans_undecodable_block"]++
+				} else {
+					fail(ln, "block does not decode: %v", err)
+				}
 				continue
 			}
 			if !bytes.Equal(EncodeObj(sp, sb), raw) {
